@@ -524,6 +524,9 @@ fn run_case(flavor: Flavor, case: u64, mut dec: Dec, opts: &RunOpts) -> RunOut {
     // the kernel clears a thread's tid word and wakes its futex in two steps: the wake may come
     // a few quanta after the zero is visible
     cfg.defer_ctid_wake_max = *dec.pick(K::Cfg, &[0u32, 0, 4, 24]);
+    // a third of the runs: a futex wait (join, handle drop, allocator lock) is interrupted up to 3
+    // times (EINTR: a signal with a handler arrives); the wait has to be taken up again
+    cfg.futex_eintr_den = *dec.pick(K::Cfg, &[0u32, 0, 5]);
     if std::env::var_os("PTSIM_FAULT_MUNMAP").is_some() {
         // exploration only: shows that the stack ledger reacts; never part of a registered command
         cfg.faults = FaultCfg { mmap_stack: false, clone: false, munmap: true, spurious_futex: false, num: 1, den: 6, max_per_run: 1 };
@@ -663,7 +666,7 @@ impl Check for C05 {
         prepare_probe();
     }
     fn rule(&self) -> String {
-        "each case = one execution of probes/threads under the tracer: 1..3 (thorough 1..5) batches of 1..6 threads; per thread a result type of 12 classes (() .. align 4096; bool / Option<u32> / Result<u8,u8> / String for niches and heap ownership; a type whose destructor panics, used only with a handle that is dropped before the closure returns), returns or panics (1/3; at most one panic per run happens inside the arguments of an eprintln!, i.e. with the print lock held), 0..3 report records, optional sleep and heap allocation, handle fate join-now / join-after-the-others / drop-now / drop-later. The decision stream picks the scheduling mode (uniform, sticky 1/2 1/4 1/16, main-first, newest-first), the thread at every system-call stop, up to 6 single-step bursts of <=400 instructions (biased to the window after a thread's last record and after main's join/drop markers), in 1/3 of the runs up to 2 failures of mmap(stack) or clone (EAGAIN/ENOMEM), a third of those with clone failing for good once it has failed (a spawn that then keeps calling clone 200 times is a violation); in half of the runs the emulated wake of an exiting thread's clear-tid futex comes 1..4 or 1..24 quanta after the kernel's zero write is visible (two separate steps in the kernel), in a quarter the probe's allocator reuses freed blocks at once (no quarantine), in half a thread preempted inside a window is frozen for up to 6 or 16 quanta; FUTEX_WAIT timeouts run on the simulated clock. every 4th case uses the debug build of the probe. non-trivial = >=2 context switches and (a futex park, a burst or a fired fault); distinct = hash of scenario x sequence of (thread, scheduling-point kind)".into()
+        "each case = one execution of probes/threads under the tracer: 1..3 (thorough 1..5) batches of 1..6 threads; per thread a result type of 12 classes (() .. align 4096; bool / Option<u32> / Result<u8,u8> / String for niches and heap ownership; a type whose destructor panics, used only with a handle that is dropped before the closure returns), returns or panics (1/3; at most one panic per run happens inside the arguments of an eprintln!, i.e. with the print lock held), 0..3 report records, optional sleep and heap allocation, handle fate join-now / join-after-the-others / drop-now / drop-later. The decision stream picks the scheduling mode (uniform, sticky 1/2 1/4 1/16, main-first, newest-first), the thread at every system-call stop, up to 6 single-step bursts of <=400 instructions (biased to the window after a thread's last record and after main's join/drop markers), in 1/3 of the runs up to 2 failures of mmap(stack) or clone (EAGAIN/ENOMEM), a third of those with clone failing for good once it has failed (a spawn that then keeps calling clone 200 times is a violation); in half of the runs the emulated wake of an exiting thread's clear-tid futex comes 1..4 or 1..24 quanta after the kernel's zero write is visible (two separate steps in the kernel), in a quarter the probe's allocator reuses freed blocks at once (no quarantine), in half a thread preempted inside a window is frozen for up to 6 or 16 quanta; FUTEX_WAIT timeouts run on the simulated clock; in a third of the runs up to 3 futex waits are interrupted with EINTR. every 4th case uses the debug build of the probe. non-trivial = >=2 context switches and (a futex park, a burst or a fired fault); distinct = hash of scenario x sequence of (thread, scheduling-point kind)".into()
     }
     fn assumptions(&self) -> Vec<String> {
         vec![
